@@ -89,12 +89,14 @@ fn extremum<T: Sx, B: Bz<T>>(axis: usize, max: bool, exact_linear: bool, direct:
     let c = B::of(&p);
     let t = if max { c.max_t(axis) } else { c.min_t(axis) };
     goal("t in [0,1]", and(vec![le(k(0), t), le(t, k(1))]));
-    let xt = bernstein(&p, t)[axis];
+    // coordinates through the curve's own evaluate() (its agreement with the Bernstein form is C14's subject),
+    // so that these are the very terms the code compared on this path
+    let xt = c.eval(t)[axis];
     let better = |y: T| if max { ge(xt, y) } else { le(xt, y) };
     goal("no worse than the start", better(col[0]));
     goal("no worse than the end", better(col[B::DEG]));
     for (i, tau) in c.inflections(axis).iter().enumerate() {
-        goal(&format!("no worse than at inflection {}", i), better(bernstein(&p, *tau)[axis]));
+        goal(&format!("no worse than at inflection {}", i), better(c.eval(*tau)[axis]));
     }
     if direct {
         let u = var::<T>("u");
@@ -130,7 +132,7 @@ fn bbox<T: Sx, B: Bz<T>>(axis: usize, three: bool) {
     }
     // touches the curve on each side: the corners are curve coordinates at the extremal parameters
     let (tl, th) = (c.min_t(axis), c.max_t(axis));
-    goal("touches the curve on each side", and(vec![eq(mn[axis], bernstein(&p, tl)[axis]), eq(mx[axis], bernstein(&p, th)[axis]), le(k(0), tl), le(tl, k(1)), le(k(0), th), le(th, k(1))]));
+    goal("touches the curve on each side", and(vec![eq(mn[axis], c.eval(tl)[axis]), eq(mx[axis], c.eval(th)[axis]), le(k(0), tl), le(tl, k(1)), le(k(0), th), le(th, k(1))]));
     for j in 0..mn.len() {
         if j != axis {
             goal(&format!("flat axis {}", j), and(vec![eq(mn[j], k(0)), eq(mx[j], k(0))]));
